@@ -9,7 +9,7 @@ from ..cfg import cfg_of
 from ..dag import T, walk, show
 from ..model import FunctionInfo, ClassInfo, AnalysisError, dotted
 from ..report import Ctx
-from ..util import cmp_views, norm, fn_body_nodes, walk_local, kwarg, parents, is_none_test
+from ..util import ordered_args, arg_nodes, arg_texts, cmp_views, norm, fn_body_nodes, walk_local, kwarg, parents, is_none_test
 from .common import stmts_assigning_attr, return_nodes, calls_named, arg_permutation_rule, names_in
 
 EXPLANATION = (
@@ -239,7 +239,7 @@ def rule_subtask(ctx: Ctx):
     if len(aug) != 1:
         raise AnalysisError("PlanToSubgoalOption.sub_task: expected one call of augment()")
     a = aug[0]
-    kws = {k.arg: k.value for k in a.keywords}
+    kws = arg_nodes(a)
     m = kws.get("mdp") or (a.args[0] if a.args else None)
     ctx.check(dotted(m) == f"{fi.self_name}.mdp" if m is not None else None, "SUB-1", fi, a, "augment(mdp=self.mdp)",
               "sub-task derives from the option's base MDP", "sub-task derives from a different MDP")
@@ -420,7 +420,7 @@ def rule_semimdp(ctx: Ctx):
                   "SMDP-2", f, div, "probability of a key is its own count", "", "key/count pairing in the outcome distribution is inconsistent")
     # the simulations are those of this (s, a)
     rs = calls_named(f, "run_simulations")
-    ok = bool(rs) and [a.id if isinstance(a, ast.Name) else None for a in rs[0].args] == ["s", "a"]
+    ok = bool(rs) and [a.id if isinstance(a, ast.Name) else None for a in ordered_args(rs[0])] == ["s", "a"]
     ctx.check(ok if rs else None, "SMDP-3", f, rs[0] if rs else f.node, "run_simulations(s, a)", "", "simulations are run for a different (state, option)")
     ro = calls_named(sim, "run_on")
     if ro:
